@@ -247,6 +247,12 @@ func (s *scn) genSpecs() {
 		}
 		s.specs[0].stateable = true
 		s.specs[0].heldSub = true
+	case "subentry":
+		// a subscriber arrives before a later Stateable runnable is started (witness of C06_subscriber_refuted)
+		s.specs = make([]spec, 2)
+		for i := range s.specs {
+			s.specs[i] = spec{exit: "sig", stopBlocks: s.r.Bool(), stateable: true}
+		}
 	case "subclose":
 		// a subscriber's context ends while a broadcast is in progress
 		s.specs = make([]spec, 1+s.r.Intn(2))
@@ -804,6 +810,41 @@ func (s *scn) preludeSubClose() {
 	s.quiesce()
 }
 
+// preludeSubEntry: subscribe while Run() waits at runnable 0's gate, take the initial snapshot, open
+// the gate, let runnable 1 start and become ready without ever changing state, then look at the
+// subscriber's channel and at GetStateMap() at a quiescent point.
+func (s *scn) preludeSubEntry() {
+	s.rec.WaitFor("RunCall 0", 3*time.Second)
+	s.quiesce()
+	s.nextSub++
+	c := s.nextSub
+	ctx, cancel := context.WithCancel(context.Background())
+	s.rec.Emit("Subscribe %d", c)
+	ch := s.sup.SubscribeStateChanges(ctx)
+	sb := &subSt{ch: ch, cancel: cancel}
+	s.subs[c] = sb
+	s.quiesce()
+	take := func() {
+		select {
+		case m, ok := <-sb.ch:
+			if ok {
+				s.rec.Emit("SubRecv %d %s", c, s.mapStr(m))
+			}
+		default:
+		}
+	}
+	take()
+	s.readySet[0] = true
+	s.cores[0].SetReady(true)
+	s.rec.WaitFor("RunCall 1", 3*time.Second)
+	s.quiesce()
+	s.readySet[1] = true
+	s.cores[1].SetReady(true)
+	s.quiesce()
+	take()
+	s.snap()
+}
+
 func (s *scn) allCallersBack() bool {
 	s.mu.Lock()
 	defer s.mu.Unlock()
@@ -841,6 +882,9 @@ func (s *scn) run() {
 	}
 	if s.family == "subclose" {
 		s.preludeSubClose()
+	}
+	if s.family == "subentry" {
+		s.preludeSubEntry()
 	}
 	steps := 6 + s.r.Intn(18)
 	phase := "startup"
